@@ -15,12 +15,17 @@
 //!        alphabet normal form on bases, integers by value); SAM→BAM→SAM reproduces the text (SEQ
 //!        column in BAM normal form) and BAM→SAM→BAM the records, both with lazy records handed
 //!        directly to the other format's writer and through `RecordBuf::try_from_alignment_record`.
+//! Every SAM text and every BAM file is additionally read the way users read: many records through
+//! ONE reader with ONE reused `RecordBuf` / lazy record (`read_record_buf` loop, `record_bufs()`,
+//! `read_record` loop, `records()`, `try_clone_from_alignment_record` into one target), with
+//! deliberately generated "rich record followed by stripped record" neighbours, each compared with
+//! the expected value from the description (history-dependent reader state).
 //! Header-only cases do (i)–(iv) for headers, plus the binary reference list of the BAM header.
 
 use std::io::Write;
 
 use gensam::{
-    Cmp, HeaderDesc, HeaderOpts, Level, RecDesc, RecOpts, aux_text_is_canonical, bam_bases, bam_normal_form, boundary_records,
+    adjacency_corpus, gen_record_batch, Cmp, HeaderDesc, HeaderOpts, Level, RecDesc, RecOpts, aux_text_is_canonical, bam_bases, bam_normal_form, boundary_records,
     describe_alignment_record, describe_header, describe_record, diff_records, gen_header, gen_record, header_text, parse_header_text,
     parse_sam_line, rec_class, sam_columns, sam_normal_form, split_bam_stream, summary, to_header, to_record_buf,
 };
@@ -31,7 +36,7 @@ use vcore::{CaseOut, Ctx, Report, Rng, guard, rng::fnv1a, run_cases};
 
 #[derive(Clone, Debug)]
 struct Case {
-    /// "boundary" | "witness" | "records" | "huge" | "headers"
+    /// "boundary" | "adjacency" | "witness" | "records" | "huge" | "headers"
     kind: &'static str,
     n: usize,
     cseed: u64,
@@ -43,6 +48,10 @@ fn case_json(c: &Case) -> serde_json::Value {
 
 fn gen_cases(ctx: &Ctx) -> Vec<Case> {
     let mut v = vec![Case { kind: "boundary", n: 0, cseed: 0 }, Case { kind: "boundary", n: 0, cseed: 1 }, Case { kind: "witness", n: 1, cseed: 2 }];
+    // deterministic rich -> missing -> rich / long -> short -> long neighbours (reused reader buffers)
+    for i in 0..4 {
+        v.push(Case { kind: "adjacency", n: 0, cseed: 100 + i });
+    }
     let per_case = ctx.budget("per_case", 200, 250) as usize;
     let records = ctx.budget("records", 20_000, 1_000_000) as usize;
     for i in 0..records.div_ceil(per_case) {
@@ -249,6 +258,186 @@ fn read_bam_lazy(bgzf: bool, file: &[u8]) -> Result<Vec<bam::Record>, String> {
 }
 
 // ------------------------------------------------------------------------------------------------
+// reading the way users do: ONE reader, ONE reused buffer
+
+type Listed<T> = Result<Vec<T>, (usize, String)>;
+
+/// Per path, what each record looked like right after it was read.
+struct Reused {
+    /// `read_record_buf(&header, &mut same_buf)` in a loop
+    loop_buf: Listed<RecDesc>,
+    /// `reader.record_bufs(&header)`
+    iter_buf: Listed<RecDesc>,
+    /// `read_record(&mut same_record)` in a loop, described through the `Record` trait
+    loop_lazy: Listed<Result<RecDesc, String>>,
+    /// `reader.records()`
+    iter_lazy: Listed<Result<RecDesc, String>>,
+    /// `same_buf.try_clone_from_alignment_record(&header, &lazy)` over the lazy records in order
+    clone_into: Listed<RecDesc>,
+}
+
+macro_rules! read_reused_impl {
+    ($mk:expr, $lazy:ty) => {{
+        let loop_buf: Listed<RecDesc> = (|| {
+            let mut r = $mk;
+            let h = r.read_header().map_err(|e| (0usize, format!("read_header: {e}")))?;
+            let mut same = RecordBuf::default();
+            let mut v = Vec::new();
+            loop {
+                match r.read_record_buf(&h, &mut same) {
+                    Ok(0) => break,
+                    Ok(_) => v.push(describe_record(&same)),
+                    Err(e) => return Err((v.len(), reason(&e))),
+                }
+            }
+            Ok(v)
+        })();
+        let iter_buf: Listed<RecDesc> = (|| {
+            let mut r = $mk;
+            let h = r.read_header().map_err(|e| (0usize, format!("read_header: {e}")))?;
+            let mut v = Vec::new();
+            for x in r.record_bufs(&h) {
+                match x {
+                    Ok(rb) => v.push(describe_record(&rb)),
+                    Err(e) => return Err((v.len(), reason(&e))),
+                }
+            }
+            Ok(v)
+        })();
+        let mut clone_into: Listed<RecDesc> = Ok(Vec::new());
+        let loop_lazy: Listed<Result<RecDesc, String>> = (|| {
+            let mut r = $mk;
+            let h = r.read_header().map_err(|e| (0usize, format!("read_header: {e}")))?;
+            let mut same = <$lazy>::default();
+            let mut target = RecordBuf::default();
+            let mut v = Vec::new();
+            loop {
+                match r.read_record(&mut same) {
+                    Ok(0) => break,
+                    Ok(_) => {
+                        v.push(describe_alignment_record(&same, &h));
+                        if let Ok(list) = clone_into.as_mut() {
+                            match target.try_clone_from_alignment_record(&h, &same) {
+                                Ok(()) => list.push(describe_record(&target)),
+                                Err(e) => clone_into = Err((list.len(), reason(&e))),
+                            }
+                        }
+                    }
+                    Err(e) => return Err((v.len(), reason(&e))),
+                }
+            }
+            Ok(v)
+        })();
+        let iter_lazy: Listed<Result<RecDesc, String>> = (|| {
+            let mut r = $mk;
+            let h = r.read_header().map_err(|e| (0usize, format!("read_header: {e}")))?;
+            let mut v = Vec::new();
+            for x in r.records() {
+                match x {
+                    Ok(rec) => v.push(describe_alignment_record(&rec, &h)),
+                    Err(e) => return Err((v.len(), reason(&e))),
+                }
+            }
+            Ok(v)
+        })();
+        Reused { loop_buf, iter_buf, loop_lazy, iter_lazy, clone_into }
+    }};
+}
+
+fn read_sam_reused(text: &[u8]) -> Reused {
+    read_reused_impl!(sam::io::Reader::new(text), sam::Record)
+}
+
+fn read_bam_reused(bgzf: bool, file: &[u8]) -> Reused {
+    if bgzf { read_reused_impl!(bam::io::Reader::new(file), bam::Record) } else { read_reused_impl!(bam::io::Reader::from(file), bam::Record) }
+}
+
+/// Judges the five reused-buffer paths of one file. `exp[k]` is the expected description of record
+/// `k`; `written(k)` / `prev(k)` render the record and its predecessor; `tolerate(k, diff field)`
+/// names differences that another check already reports under its own signature.
+#[allow(clippy::too_many_arguments)]
+fn judge_reused(
+    out: &mut CaseOut,
+    fmt: &str,
+    ru: &Reused,
+    exp: &[RecDesc],
+    cmp: &Cmp,
+    show: &dyn Fn(usize) -> String,
+    skip_lazy: &dyn Fn(usize) -> bool,
+    tolerate: &dyn Fn(usize, &str) -> bool,
+) {
+    let prev = |k: usize| if k == 0 { "<first record>".to_string() } else { show(k - 1) };
+    let eager: [(&str, &Listed<RecDesc>); 3] = [("read_record_buf", &ru.loop_buf), ("record_bufs", &ru.iter_buf), ("try_clone_from_alignment_record", &ru.clone_into)];
+    for (path, res) in eager {
+        match res {
+            Err((at, e)) => {
+                if !(path == "try_clone_from_alignment_record" && skip_lazy(*at)) {
+                    out.violation(format!("reused-buffer:{fmt}:{path}:fails"), format!("{fmt} {path} through one reused buffer fails at record #{at}: {e}; record: {}", show((*at).min(exp.len().saturating_sub(1)))));
+                }
+            }
+            Ok(v) if v.len() != exp.len() => out.violation(format!("reused-buffer:{fmt}:{path}:record-count"), format!("{} written, {} read", exp.len(), v.len())),
+            Ok(v) => {
+                for (k, got) in v.iter().enumerate() {
+                    out.count(&format!("compared_reused[{fmt}:{path}]"), 1);
+                    if let Some(df) = diff_records(&exp[k], got, cmp) {
+                        if tolerate(k, &df.field) {
+                            continue;
+                        }
+                        out.violation(
+                            format!("reused-buffer:{fmt}:{path}:{}", df.field),
+                            format!(
+                                "a {fmt} record read with {path} into a REUSED buffer differs from what was written in {}: {}; written: {}; the record read just before: {}",
+                                df.field,
+                                df.detail,
+                                show(k),
+                                prev(k)
+                            ),
+                        );
+                    }
+                }
+            }
+        }
+    }
+    for (path, res) in [("read_record", &ru.loop_lazy), ("records", &ru.iter_lazy)] {
+        match res {
+            Err((at, e)) => out.violation(format!("reused-record:{fmt}:{path}:fails"), format!("{fmt} {path} through one reused record fails at record #{at}: {e}")),
+            Ok(v) if v.len() != exp.len() => out.violation(format!("reused-record:{fmt}:{path}:record-count"), format!("{} written, {} read", exp.len(), v.len())),
+            Ok(v) => {
+                for (k, got) in v.iter().enumerate() {
+                    if skip_lazy(k) {
+                        continue;
+                    }
+                    out.count(&format!("compared_reused[{fmt}:{path}]"), 1);
+                    match got {
+                        Err(msg) => out.violation(
+                            format!("reused-record:{fmt}:{path}:accessor-fails:{}", msg.split(':').next().unwrap_or("?")),
+                            format!("lazy view of a {fmt} record read with {path} into a reused record fails: {msg}; record: {}", show(k)),
+                        ),
+                        Ok(l) => {
+                            if let Some(df) = diff_records(&exp[k], l, cmp) {
+                                if tolerate(k, &df.field) {
+                                    continue;
+                                }
+                                out.violation(
+                                    format!("reused-record:{fmt}:{path}:{}", df.field),
+                                    format!(
+                                        "a {fmt} record read with {path} into a REUSED lazy record differs from what was written in {}: {}; written: {}; the record read just before: {}",
+                                        df.field,
+                                        df.detail,
+                                        show(k),
+                                        prev(k)
+                                    ),
+                                );
+                            }
+                        }
+                    }
+                }
+            }
+        }
+    }
+}
+
+// ------------------------------------------------------------------------------------------------
 // headers
 
 /// All header checks for one description. Returns the noodles text (None if the writer rejected it).
@@ -433,6 +622,7 @@ fn run_records(c: &Case, idx: u64, out: &mut CaseOut) {
     let bgzf = c.cseed % 2 == 1;
     let descs: Vec<RecDesc> = match c.kind {
         "boundary" => boundary_records(&hd, Level::SamText, true),
+        "adjacency" => adjacency_corpus(&hd),
         // deterministic witness of a known finding: a long CIGAR and an empty array as the *last*
         // field (the lazy SAM view reads it; after a BAM hop the retained CG field follows it)
         "witness" => vec![RecDesc {
@@ -457,7 +647,8 @@ fn run_records(c: &Case, idx: u64, out: &mut CaseOut) {
                 o.max_seq_len = 1500;
                 o.max_array_len = 2000;
             }
-            (0..c.n).map(|_| gen_record(&mut rng, &hd, &o)).collect()
+            // with deliberate "rich followed by stripped" neighbours
+            gen_record_batch(&mut rng, &hd, &o, c.n)
         }
     };
     out.evaluations = descs.len() as u64;
@@ -644,6 +835,12 @@ fn run_records(c: &Case, idx: u64, out: &mut CaseOut) {
         }
     }
 
+    // (i-b) the same text read through ONE reader with ONE reused buffer / lazy record
+    if let Some(ru) = guarded(out, "sam reader (reused buffer)", || read_sam_reused(&text)) {
+        let exp: Vec<RecDesc> = acc.iter().map(|&i| sam_normal_form(&descs[i])).collect();
+        judge_reused(out, "sam", &ru, &exp, &Cmp::TEXT, &|k| lossy(&lines[k]), &|k| !lazy_ok.get(k).copied().unwrap_or(true), &|_, _| false);
+    }
+
     // (ii) fixed point, eager and lazy
     for (k, rb) in sf.eager.iter().enumerate() {
         out.count("fixed_point_checked", 1);
@@ -720,6 +917,14 @@ fn run_records(c: &Case, idx: u64, out: &mut CaseOut) {
                 json!({"record": acc[k]}),
             );
         }
+    }
+
+    // (iv-b) the BAM file read through ONE reader with ONE reused buffer / lazy record
+    if let Some(ru) = guarded(out, "bam reader (reused buffer)", || read_bam_reused(bgzf, &bfile)) {
+        let exp: Vec<RecDesc> = both.iter().map(|&k| bam_normal_form(&descs[acc[k]])).collect();
+        // the CG carrier a lazy long-CIGAR record keeps is reported by the pipelines (known finding)
+        let long_cg = |j: usize, field: &str| field == "aux:count" && exp[j].cigar.len() > 65_535;
+        judge_reused(out, "bam", &ru, &exp, &Cmp::EXACT, &|j| summary(&exp[j]), &|_| false, &long_cg);
     }
 
     // pipelines. The reference text: the lines both writers accepted and whose lazy view works.
@@ -883,7 +1088,10 @@ fn main() {
          2^31-1, MAPQ 0..255, CIGARs of 0..2000 and 65535..70000 operations over 9 kinds, SEQ over [A-Za-z=.] or *, QUAL present/missing, '=' / \
          other / missing mate reference, aux A i(6 widths) f Z H B:cCsSiIf at range edges incl. empty arrays, -0, subnormals); header case = 100 \
          generated headers (0..400 @SQ, @HD versions, @RG/@PG with PP chains/@CO incl. TABs and UTF-8, standard + user tags); deterministic \
-         boundary corpus + VERIF_SEED-seeded random part; evaluation = one record or one header; distinct = distinct gensam::rec_class / aux \
+         boundary corpus and adjacency corpus (rich -> missing -> rich, long -> short -> long neighbours for every optional part) + \
+         VERIF_SEED-seeded random part in which every ~6th record is followed by a stripped variant; every SAM and BAM file is also read \
+         through ONE reader with ONE reused buffer (read_record_buf loop, record_bufs(), read_record loop, records(), \
+         try_clone_from_alignment_record into one target); evaluation = one record or one header; distinct = distinct gensam::rec_class / aux \
          type class of a record the SAM writer accepted, plus distinct header classes (line kinds present, counts 0/1/few/many, user tags, PP); \
          non-trivial = all (every accepted value is parsed back eagerly and lazily, re-written, checked against the independent rendering, \
          and pushed through BAM)",
@@ -909,6 +1117,11 @@ fn main() {
         rep.floor("fixed_point_checked", g("fixed_point_checked"), want);
         rep.floor("lines_checked_independently", g("lines_checked_independently"), want);
         rep.floor("compared_sam_vs_bam", g("compared_sam_vs_bam"), want);
+        for f in ["sam", "bam"] {
+            for p in ["read_record_buf", "record_bufs", "read_record", "records", "try_clone_from_alignment_record"] {
+                rep.floor(&format!("compared_reused[{f}:{p}]"), g(&format!("compared_reused[{f}:{p}]")), want);
+            }
+        }
         rep.floor("pipeline_sam_bam_sam[direct]", g("pipeline_sam_bam_sam[direct]"), want / 2);
         rep.floor("pipeline_bam_sam_bam[direct]", g("pipeline_bam_sam_bam[direct]"), want / 2);
         rep.floor("headers_written", g("headers_written"), ctx.budget("headers", 2_000, 50_000) * 8 / 10);
